@@ -46,50 +46,176 @@ theorem wf_worldOf {locals : List LBlock} (h : LocalsOK locals) : WF (worldOf lo
   | none => exact wf_empty_block
   | some b => exact h.2 b (List.mem_of_find?_eq_some hf)
 
-theorem uploadOps_isPut (order : List String) (n : Nat) (b : Block) : ∀ op ∈ uploadOps order n b, IsPut op := by
+-- ---------------------------------------------------------------- the interpreter under faults
+
+theorem fault_none_hit : Fault.none.hit = false := by decide
+theorem fault_none_pass : Fault.none.pass = Fault.none := by decide
+theorem fault_none_passMut : Fault.none.passMut = Fault.none := by decide
+
+/-- without a fault every call of a script reaches the bucket -/
+theorem execF_none : ∀ (sc : List Call) (s : Bucket),
+    execF Fault.none sc s = (⟨true, muts sc, applyAll s (muts sc)⟩, Fault.none)
+  | [], s => by simp [execF, muts, applyAll]
+  | .rd :: cs, s => by simp [execF, muts, fault_none_hit, fault_none_pass, execF_none cs s]
+  | .mu op :: cs, s => by
+    simp [execF, muts, fault_none_hit, fault_none_passMut, execF_none cs (apply s op), applyAll_cons]
+  | .muIgn op :: cs, s => by
+    simp [execF, muts, fault_none_hit, fault_none_passMut, execF_none cs (apply s op), applyAll_cons]
+
+/-- a script of calls whose failure is ignored: some of them reach the bucket, in order -/
+theorem execF_muIgn : ∀ (ops : List Op) (f : Fault) (s : Bucket),
+    (execF f (ops.map .muIgn) s).1.bkt = applyAll s (execF f (ops.map .muIgn) s).1.trace ∧
+    (∀ op ∈ (execF f (ops.map .muIgn) s).1.trace, op ∈ ops) ∧
+    (execF f (ops.map .muIgn) s).1.trace.length ≤ ops.length ∧
+    ((execF f (ops.map .muIgn) s).1.trace.length = ops.length → (execF f (ops.map .muIgn) s).1.trace = ops)
+  | [], f, s => by simp [execF, applyAll]
+  | op :: ops, f, s => by
+    simp only [List.map_cons, execF]
+    split
+    · obtain ⟨h1, h2, h3, _⟩ := execF_muIgn ops f.afterHit s
+      refine ⟨h1, fun o ho => List.mem_cons_of_mem _ (h2 o ho), by simp only [List.length_cons]; omega, ?_⟩
+      intro e
+      simp only [List.length_cons] at e
+      omega
+    · obtain ⟨h1, h2, h3, h4⟩ := execF_muIgn ops f.passMut (apply s op)
+      refine ⟨by simp [applyAll_cons, h1], ?_, by simp only [List.length_cons]; omega, ?_⟩
+      · intro o ho
+        rcases List.mem_cons.mp ho with rfl | ho'
+        · simp
+        · exact List.mem_cons_of_mem _ (h2 o ho')
+      · intro e
+        simp only [List.length_cons, Nat.add_right_cancel_iff] at e
+        rw [h4 e]
+
+/-- a script of calls whose failure aborts: a prefix reaches the bucket; all of it if ok -/
+theorem execF_mu : ∀ (ops : List Op) (f : Fault) (s : Bucket),
+    ∃ k, (execF f (ops.map .mu) s).1.trace = ops.take k ∧
+      (execF f (ops.map .mu) s).1.bkt = applyAll s (ops.take k) ∧
+      ((execF f (ops.map .mu) s).1.ok = true → (execF f (ops.map .mu) s).1.trace = ops)
+  | [], f, s => ⟨0, by simp [execF, applyAll]⟩
+  | op :: ops, f, s => by
+    simp only [List.map_cons, execF]
+    split
+    · exact ⟨0, by simp [applyAll]⟩
+    · obtain ⟨k, h1, h2, h3⟩ := execF_mu ops f.passMut (apply s op)
+      refine ⟨k + 1, by simp [h1], by simp [applyAll_cons, h2], ?_⟩
+      intro hok
+      simp only at hok
+      rw [h3 hok]
+
+-- ---------------------------------------------------------------- block.Upload under faults
+
+def chunkPuts (n : Nat) (b : Block) : List Op := b.chunks.map fun p => Op.put (n, p.1) (.data p.2)
+def tailPuts (n : Nat) (b : Block) : List Op :=
+  [.put (n, indexName) (.data b.index), .put (n, metaName) b.metaObj]
+
+theorem chunkCalls_eq (n : Nat) (b : Block) : chunkCalls n b = (chunkPuts n b).map .muIgn := by
+  simp [chunkCalls, chunkPuts, List.map_map, Function.comp_def]
+theorem tailCalls_eq (n : Nat) (b : Block) : tailCalls n b = (tailPuts n b).map .mu := by
+  simp [tailCalls, tailPuts]
+
+theorem chunkPuts_data {n : Nat} {b : Block} {op : Op} (h : op ∈ chunkPuts n b) :
+    ∃ f sz, op = .put (n, f) (.data sz) ∧ (f, sz) ∈ b.files := by
+  obtain ⟨p, hp, rfl⟩ := List.mem_map.mp h
+  exact ⟨p.1, p.2, rfl, by simp [Block.files, hp]⟩
+
+/-- what a run of `block.Upload` under any fault amounts to: some of the chunk puts, then — only
+    if ALL chunk puts went through — a prefix of [index, meta.json] -/
+theorem uploadF_shape (f : Fault) (n : Nat) (b : Block) (s : Bucket) :
+    ∃ t1 t2, (uploadF f n b s).1.bkt = applyAll (applyAll s t1) t2 ∧
+      (uploadF f n b s).1.trace = t1 ++ t2 ∧
+      (∀ op ∈ t1, op ∈ chunkPuts n b) ∧
+      ((t2 = [] ∧ ((uploadF f n b s).1.ok = true → False)) ∨
+       (t1 = chunkPuts n b ∧ ∃ k, t2 = (tailPuts n b).take k ∧
+          ((uploadF f n b s).1.ok = true → t2 = tailPuts n b))) := by
+  unfold uploadF
+  simp only [chunkCalls_eq, tailCalls_eq]
+  obtain ⟨h1, h2, h3, h4⟩ := execF_muIgn (chunkPuts n b) f s
+  split
+  · refine ⟨_, [], by simpa [applyAll] using h1, by simp, h2, Or.inl ⟨rfl, by simp⟩⟩
+  · rename_i hlen
+    have hfull : (execF f ((chunkPuts n b).map .muIgn) s).1.trace = chunkPuts n b := by
+      apply h4
+      have : (chunkPuts n b).length = b.chunks.length := by simp [chunkPuts]
+      omega
+    obtain ⟨k, k1, k2, k3⟩ := execF_mu (tailPuts n b) (execF f ((chunkPuts n b).map .muIgn) s).2
+      (execF f ((chunkPuts n b).map .muIgn) s).1.bkt
+    refine ⟨_, (tailPuts n b).take k, ?_, by simp [k1], h2, Or.inr ⟨hfull, k, rfl, ?_⟩⟩
+    · rw [k2, h1]
+    · intro hok
+      simp only at hok
+      rw [← k1]; exact k3 hok
+
+theorem uploadF_isPut (f : Fault) (n : Nat) (b : Block) (s : Bucket) :
+    ∃ ops, (uploadF f n b s).1.bkt = applyAll s ops ∧ ∀ op ∈ ops, ∃ g o, op = .put (n, g) o := by
+  obtain ⟨t1, t2, hb, _, h1, h2⟩ := uploadF_shape f n b s
+  refine ⟨t1 ++ t2, by rw [hb, applyAll_append], ?_⟩
   intro op hop
-  obtain ⟨ph, _, hin⟩ := List.mem_flatMap.mp hop
-  unfold phaseOps at hin
-  split at hin
-  · obtain ⟨p, _, rfl⟩ := List.mem_map.mp hin; trivial
-  · simp at hin; subst hin; trivial
-  · simp at hin; subst hin; trivial
-  · simp at hin
+  rcases List.mem_append.mp hop with h | h
+  · obtain ⟨g, sz, e, _⟩ := chunkPuts_data (h1 op h); exact ⟨g, _, e⟩
+  · have hsub : op ∈ tailPuts n b := by
+      rcases h2 with ⟨e, _⟩ | ⟨_, k, e, _⟩
+      · rw [e] at h; simp at h
+      · rw [e] at h; exact List.mem_of_mem_take h
+    simp only [tailPuts, List.mem_cons, List.mem_nil_iff, or_false] at hsub
+    rcases hsub with rfl | rfl <;> exact ⟨_, _, rfl⟩
 
-theorem muts_uploadScript (order : List String) (n : Nat) (b : Block) :
-    muts (uploadScript order n b) = uploadOps order n b := by
-  unfold uploadScript
-  induction uploadOps order n b with
-  | nil => rfl
-  | cons op ops ih => simp [muts, ih]
+/-- an upload (whatever fails) never removes an object -/
+theorem upload_keeps (f : Fault) (n : Nat) (b : Block) (s : Bucket) (key : Key)
+    (h : (get s key).isSome = true) : (get (uploadF f n b s).1.bkt key).isSome = true := by
+  obtain ⟨ops, hb, hp⟩ := uploadF_isPut f n b s
+  rw [hb]
+  exact present_applyAll_puts ops s (fun op hop => by obtain ⟨g, o, rfl⟩ := hp op hop; trivial) key h
 
-/-- an upload (crashed anywhere or not) never removes an object -/
-theorem upload_keeps (order : List String) (n : Nat) (b : Block) (k : Option Nat) (s : Bucket) (key : Key)
-    (h : (get s key).isSome = true) : (get (exec k (uploadScript order n b) s).bkt key).isSome = true := by
-  obtain ⟨j, hj⟩ := exec_bkt k (uploadScript order n b) s
-  rw [hj, muts_uploadScript]
-  exact present_applyAll_puts _ s (fun op hop => uploadOps_isPut order n b op (List.mem_of_mem_take hop)) key h
+theorem upload_ok_visible (f : Fault) (n : Nat) (b : Block) (s : Bucket)
+    (h : (uploadF f n b s).1.ok = true) : Visible (uploadF f n b s).1.bkt n := by
+  obtain ⟨t1, t2, hb, _, _, h2⟩ := uploadF_shape f n b s
+  rcases h2 with ⟨_, hf⟩ | ⟨_, k, _, hk⟩
+  · exact absurd h (fun h => hf h)
+  · rw [hb, hk h]
+    simp only [tailPuts, applyAll_cons, applyAll_nil, apply, Visible, get_put]
+    simp
 
-/-- a script of `.mu` calls only that returns ok has applied all of them -/
-theorem exec_ok_all : ∀ (ops : List Op) (k : Option Nat) (s : Bucket),
-    (exec k (ops.map .mu) s).ok = true → (exec k (ops.map .mu) s).bkt = applyAll s ops
-  | [], _, s, _ => by simp [exec, applyAll]
-  | op :: ops, k, s, h => by
-    simp only [List.map_cons, exec] at h ⊢
-    split at h
-    · simp at h
-    · rename_i hc
-      simp only [hc] at h ⊢
-      simp only [Bool.false_eq_true, if_false, applyAll_cons]
-      exact exec_ok_all ops (dec k) (apply s op) h
+/-- `block.Upload` keeps the C28 invariant under any fault (crash or transient) -/
+theorem good_uploadF {w : Nat → Block} (hw : WF w) (f : Fault) (n : Nat) (s : Bucket) (hs : Good w s) :
+    Good w (uploadF f n (w n) s).1.bkt := by
+  obtain ⟨t1, t2, hb, _, h1, h2⟩ := uploadF_shape f n (w n) s
+  rw [hb]
+  have hd1 : ∀ op ∈ t1, ∃ m g sz, op = .put (m, g) (.data sz) ∧ (g, sz) ∈ (w m).files := by
+    intro op hop
+    obtain ⟨g, sz, e, hf⟩ := chunkPuts_data (h1 op hop)
+    exact ⟨n, g, sz, e, hf⟩
+  have hg1 : Good w (applyAll s t1) := good_all hw t1 s hs (safeRun_dataPuts t1 s hd1)
+  rcases h2 with ⟨e, _⟩ | ⟨e1, k, e2, _⟩
+  · rw [e]; simpa [applyAll] using hg1
+  · rw [e2]
+    apply good_prefix hw _ _ hg1
+    refine ⟨.putData n indexName (w n).index (by simp [Block.files]), ?_, trivial⟩
+    refine .putMeta n false (fun g sz hg => ?_)
+    simp only [Block.files, List.mem_append, List.mem_singleton] at hg
+    rcases hg with hg | hg
+    · apply present_apply_put (by trivial)
+      rw [e1]
+      exact present_after_puts _ s (fun op hop => by
+        obtain ⟨g', sz', e, _⟩ := chunkPuts_data hop
+        subst e; trivial) (n, g) (.data sz) (List.mem_map.mpr ⟨(g, sz), hg, rfl⟩)
+    · cases hg
+      simp [apply, get_put]
 
-theorem upload_ok_visible (n : Nat) (b : Block) (k : Option Nat) (s : Bucket)
-    (h : (exec k (uploadScript codeUploadOrder n b) s).ok = true) :
-    Visible (exec k (uploadScript codeUploadOrder n b) s).bkt n := by
-  unfold uploadScript at h ⊢
-  rw [exec_ok_all _ k s h]
-  exact present_after_puts _ s (uploadOps_isPut _ n b) (n, metaName) b.metaObj (by
-    simp [uploadOps, codeUploadOrder, phaseOps])
+theorem uploadF_none (n : Nat) (b : Block) (s : Bucket) :
+    (uploadF Fault.none n b s).1.ok = true ∧ (uploadF Fault.none n b s).2 = Fault.none := by
+  unfold uploadF
+  simp only [execF_none]
+  have : ¬ (muts (chunkCalls n b)).length < b.chunks.length := by
+    simp [chunkCalls_eq, chunkPuts]
+    have : ∀ l : List Op, muts (l.map .muIgn) = l := by
+      intro l; induction l with
+      | nil => rfl
+      | cons o l ih => simp [muts, ih]
+    rw [show (List.map (Call.muIgn ∘ fun p => Op.put (n, p.1) (Obj.data p.2)) b.chunks) =
+      (b.chunks.map fun p => Op.put (n, p.1) (Obj.data p.2)).map .muIgn by simp [List.map_map]]
+    rw [this]; simp
+  simp [this]
 
 -- ---------------------------------------------------------------- whose objects are in the bucket
 
@@ -112,24 +238,13 @@ theorem keysLocal_applyAll {locals : List LBlock} : ∀ (ops : List Op) (s : Buc
     rw [applyAll_cons]
     exact keysLocal_applyAll ops _ (keysLocal_apply_put h k o hk) (fun op hop => hops op (List.mem_cons_of_mem _ hop))
 
-theorem uploadOps_keys (order : List String) (n : Nat) (b : Block) :
-    ∀ op ∈ uploadOps order n b, ∃ f o, op = .put (n, f) o := by
+theorem keysLocal_upload {locals : List LBlock} {b : LBlock} (hb : b ∈ locals) (f : Fault) (s : Bucket)
+    (h : KeysLocal locals s) : KeysLocal locals (uploadF f b.id b.files s).1.bkt := by
+  obtain ⟨ops, hbk, hp⟩ := uploadF_isPut f b.id b.files s
+  rw [hbk]
+  apply keysLocal_applyAll ops s h
   intro op hop
-  obtain ⟨ph, _, hin⟩ := List.mem_flatMap.mp hop
-  unfold phaseOps at hin
-  split at hin
-  · obtain ⟨p, _, rfl⟩ := List.mem_map.mp hin; exact ⟨_, _, rfl⟩
-  · simp at hin; subst hin; exact ⟨_, _, rfl⟩
-  · simp at hin; subst hin; exact ⟨_, _, rfl⟩
-  · simp at hin
-
-theorem keysLocal_upload {locals : List LBlock} {b : LBlock} (hb : b ∈ locals) (k : Option Nat) (s : Bucket)
-    (h : KeysLocal locals s) : KeysLocal locals (exec k (uploadScript codeUploadOrder b.id b.files) s).bkt := by
-  obtain ⟨j, hj⟩ := exec_bkt k (uploadScript codeUploadOrder b.id b.files) s
-  rw [hj, muts_uploadScript]
-  apply keysLocal_applyAll _ s h
-  intro op hop
-  obtain ⟨f, o, rfl⟩ := uploadOps_keys _ _ _ op (List.mem_of_mem_take hop)
+  obtain ⟨g, o, rfl⟩ := hp op hop
   exact ⟨_, _, rfl, b, hb, rfl⟩
 
 theorem mem_dirsOf : ∀ {s : Bucket} {n : Nat}, n ∈ dirsOf s → ∃ p ∈ s, p.1.1 = n
